@@ -17,7 +17,8 @@ RULE = ('for DT, TM, DTM, NM, SI x STRICT/TOLERANT: (a) exhaustive enumeration o
         'at each precision, 0-6 fractional digits, every offset +/-HHMM for HH 00-15 x MM 00-69 attached to several bodies, '
         'malformed/doubled/embedded offsets, month ends of years 1000 1900 2000 2023 2024 9999, Feb 29/30, DTM lengths 17-22; '
         '(c) Hypothesis single-character mutations of valid values; (d) numeric grammar positives and near-misses, length '
-        'boundaries of every numeric and textual class of every version. Oracle: a three-valued lexical reference '
+        'boundaries of every numeric and textual class of every version; (e) coverage-guided campaigns (atheris) over (datatype, version, '
+        'string up to 40 characters without delimiter characters) seeded with the grids. Oracle: a three-valued lexical reference '
         '(valid / invalid / unspecified) written from the HL7 definitions; STRICT must accept valid and reject invalid with '
         'ValueError or an HL7apyException, accepted text re-encodes verbatim (numerics: same number, same text in plain '
         'decimal form), TOLERANT never raises and keeps rejected text verbatim, MaxLengthReached exactly beyond the maximum. '
@@ -421,6 +422,33 @@ def check(case, acc=None):
     raise ValueError(k)
 
 
+FUZZ_DTS = ('DT', 'TM', 'DTM', 'NM', 'SI')
+FUZZ_TOKENS = ['2020', '0101', '1231', '0229', '2359', '+0100', '-1200', '.5', '.1234', '0000', '24', '60', '+', '-', '.', 'E5', 'e-3', '19000101',
+               '99991231235959.9999+1400', '0.0000001', '-0', '+0', '00', ' ']
+
+
+def fuzz_decode(data):
+    data = bytes(data)
+    dt = FUZZ_DTS[(data[0] if data else 0) % 5]
+    vs = [v for v in T.VERSIONS if dt in T.lib(v).BASE_DATATYPES]
+    v = vs[(data[1] if len(data) > 1 else 0) % len(vs)]
+    return {'kind': 'value', 'dt': dt, 's': data[2:].decode('utf-8', 'ignore'), 'v': v}
+
+
+def fuzz_encode(case):
+    vs = [v for v in T.VERSIONS if case['dt'] in T.lib(v).BASE_DATATYPES]
+    return bytes([FUZZ_DTS.index(case['dt']), vs.index(case['v'])]) + case['s'].encode('utf-8')
+
+
+def fuzz_one(data):
+    case = fuzz_decode(data)
+    s = case['s']
+    if any(c in s for c in '|^~\\&#\r'):
+        # delimiter / escape characters are (rightly) escaped by to_er7(): a matter of C06, outside the domain of this property
+        return [], False, case, 'fuzz:outside-domain'
+    return check(case), bool(s) and (near_valid(case['dt'], s) if len(s) < 14 else REF[case['dt']](s) != 'invalid'), case, 'fuzz:' + case['dt']
+
+
 def replay(case, acc):
     return check(case)
 
@@ -486,6 +514,15 @@ def run_shard(shard, acc):
             acc.case(h([dt, s]), near_valid(dt, s) if len(s) < 14 else True, sample=case, label='mutated:' + dt)
             return check(case)
         hyp_collect(acc, mutated(dt), run, shard['seed'], shard['n'], shard['shrink'])
+    elif kind == 'fuzz':
+        # coverage-guided campaign over (datatype, version, string): seeds = grid strings of every datatype
+        from hv import common
+        seeds = []
+        for dt in FUZZ_DTS:
+            g = grid_strings(dt)
+            seeds += [fuzz_encode({'dt': dt, 's': x, 'v': '2.5'}) for x in g[shard['k']::max(1, len(g) // 40)][:40]]
+        common.run_fuzz(acc, 'c13', seeds if shard['k'] % 4 else [], shard['seed'], shard['runs'], 40, check, fuzz_decode,
+                        'coverage-guided', dictionary=FUZZ_TOKENS, text_key='s')
     elif kind == 'lengths':
         for v in shard['versions']:
             for dt in sorted(T.textual_classes(v)):
@@ -512,4 +549,6 @@ def plan(tier, seed):
         shards.append({'kind': 'mutate', 'dt': dt, 'v': T.VERSIONS[(seed + len(dt)) % 7 + 5] if dt != 'DTM' else '2.6',
                        'seed': seed * 100 + len(shards), 'n': 4000 if tier == 'thorough' else 400, 'shrink': tier == 'thorough'})
     shards.append({'kind': 'lengths', 'versions': T.VERSIONS})
+    for k in range(2 if tier == 'quick' else 16):
+        shards.append({'kind': 'fuzz', 'k': k + 1, 'seed': seed * 1000 + 700 + k, 'runs': 20000 if tier == 'quick' else 400000})
     return shards
